@@ -69,6 +69,9 @@ class OrderedDone(set):
         return iter(self._order)
 
 
+RUN_WALL_S = float(os.environ.get("VERIF_RUN_WALL_S", "10"))
+
+
 class StopRun(BaseException):
     pass
 
@@ -328,6 +331,18 @@ class Controller:
         H.logger, H.wait_for_finished_nodes, H.wait_for_finished_nodes_async = _Log(), wfn, wfna
         DiGraphEx.__len__ = glen
         self.sched_thread = threading.get_ident()
+        # wall-clock watchdog (C09): a call that neither returns nor reaches a controlled primitive (a deadlock, e.g. an
+        # event-loop wait for a task that nobody will ever complete) is stopped after RUN_WALL_S seconds
+        import signal
+
+        use_alarm = threading.current_thread() is threading.main_thread()
+
+        def on_alarm(signum, frame):
+            raise StopRun(f"the call did not return within {RUN_WALL_S} s of wall-clock time (deadlock)")
+
+        if use_alarm:
+            old_handler = signal.signal(signal.SIGALRM, on_alarm)
+            signal.setitimer(signal.ITIMER_REAL, RUN_WALL_S)
         try:
             try:
                 return ("return", fn())
@@ -336,6 +351,9 @@ class Controller:
             except BaseException as e:  # noqa: BLE001
                 return ("raise", e)
         finally:
+            if use_alarm:
+                signal.setitimer(signal.ITIMER_REAL, 0)
+                signal.signal(signal.SIGALRM, old_handler)
             H.wait, H.ThreadPoolExecutor, H.asyncio, H.logger, H.wait_for_finished_nodes, H.wait_for_finished_nodes_async = saved[:6]
             if saved[6] is None:
                 del DiGraphEx.__len__
